@@ -227,6 +227,14 @@ def h_step(p: int, ordv: int, mn: int, mx: int, smin: int, smax: int, sa: int, s
     snapshot = [list(x) for x in cur]
     saved = _install(_Seeds(sa, sb))
     try:
+        if os.environ.get("VERIF_PRIORCALL"):
+            # history: the same builder proposed updates for ANOTHER value, which no longer exists (look-ahead over temporaries);
+            # the value under test is allocated right afterwards, typically at the address the temporary had
+            del cur
+            tmp = _variant(PARTS[(p + 1 + sa) % NPART], ordv)
+            b.candidates(tmp)
+            del tmp
+            cur = [list(x) for x in snapshot]
         cands = b.candidates(cur)
         if not _native(_same, cur, snapshot):
             return False
